@@ -3,7 +3,8 @@
 Monitor shape: hostile structures (valid skeletons of every message class with each position and each
 known option replaced by every value of a typed corpus, wrong lengths, exhaustive short URI strings,
 arbitrary and mutated octet strings per serializer) are handed to the real ``<Class>.parse()``,
-``check_or_raise_*`` and ``ISerializer.unserialize()``.  The monitor looks at (a) the exception type
+``check_or_raise_*`` and ``ISerializer.unserialize()`` (JSON, MsgPack, CBOR, UBJSON batched/unbatched with an independent
+plain-library decoder as reference; FlatBuffers for the exception type only).  The monitor looks at (a) the exception type
 (only ProtocolError / InvalidUriError may escape), (b) whether something in the grammar table's
 must-reject class was accepted, (c) whether an accepted message's ``marshal()`` is equivalent to the
 input.  Violations are keyed ``C08/<Class>/<position-or-option>/<ExceptionType | accepted-<input class>
@@ -32,7 +33,10 @@ RULE = ("parse level: for each of the 25 classes, every valid skeleton (minimal,
         "level (JSON, MsgPack, CBOR, UBJSON x batched/unbatched): every type code of a corpus, non-list top levels, every "
         "single-byte mutation (quick: 6 per offset, thorough: all 255), truncation and extension of valid encodings of every "
         "class, all 1-byte and (sampled; thorough: all) 2-byte strings, random and grammar-token noise, nesting to depth 10^5, "
-        "batch framing corruption, wrong isBinary. Non-trivial = the monitored call returned or raised and was classified; "
+        "batch framing corruption, wrong isBinary; decoder-specific values (UBJSON typed arrays -> numpy.ndarray, high-precision numbers, "
+        "CBOR tags/undefined/sets/bignums, MsgPack ext types/timestamps) as real octets at every position and under every known option "
+        "key of the full/payload skeletons; FlatBuffers serializer: mutations/truncations of its own encodings and noise, exception type "
+        "only. Non-trivial = the monitored call returned or raised and was classified; "
         "distinct = (class, place, input label, skeleton) resp. hash of the octets.")
 ASSUMPTIONS = [
     "allowed exceptions: autobahn.wamp.exception.ProtocolError and InvalidUriError (siblings below wamp.exception.Error) and their subclasses; anything else escaping parse()/unserialize()/check_or_raise_*() is a violation",
@@ -41,6 +45,8 @@ ASSUMPTIONS = [
     "marshal equivalence is modulo unknown option keys, null/default/empty option values, enc_* keys outside payload mode, unknown role features, empty trailing args/kwargs (any falsy value), trailing empty optional dict, tuple==list",
     "parse() is called with the type code it is documented to be dispatched on; other type codes go through ISerializer.unserialize()",
     "an exception is attributed to the first option/position whose neutralisation (delete the key / put a valid value) makes the exception disappear",
+    "FlatBuffers: only the exception type of unserialize() and the type of the returned objects are monitored (messages are lazy views; no independent decoder, no must-reject / re-marshal judgement)",
+    "numpy.ndarray / Decimal / cbor2 tag / msgpack ExtType values in the parse-level corpus are those the UBJSON / CBOR / MsgPack decoders used by the library's serializers deliver for typed arrays, high-precision numbers, tags and ext types (also sent as real octets in the serializer workload)",
     "run without -O: under -O the AssertionError findings turn into silent acceptance (noted, not executed)",
 ]
 DECIDING = {
@@ -58,6 +64,8 @@ DECIDING = {
     "classes": 25,
     "serializer_variants": 8,
     "typecodes_judged": 100,
+    "decoder_values_judged": 2000,
+    "decoder_value_kinds": 15,
 }
 
 # ------------------------------------------------------------------------------------------------
@@ -83,13 +91,49 @@ def exotic_values():
     except Exception:
         pass
     try:
+        # what the UBJSON (bjdata) decoder delivers for optimized typed containers "[$U#..." (hand-verified: bytes
+        # b"[$U#U\x02\x01\x02" -> numpy.ndarray), see decoder_values() for the same values sent as real octets
         import numpy
         out["ndarray2"] = numpy.array([1, 2], dtype="uint8")
         out["ndarray0"] = numpy.array([], dtype="uint8")
         out["npint"] = numpy.int64(5)
     except Exception:
         pass
+    try:
+        import msgpack
+        out["msgpack-ext"] = msgpack.ExtType(5, b"x")
+        out["msgpack-timestamp"] = msgpack.Timestamp(1577836800, 0)
+    except Exception:
+        pass
     G.EXOTIC.update(out)
+    return out
+
+
+def decoder_values(base):
+    """Values that only this wire format's decoder produces (label, python value the plain library encodes to the
+    wire construct): UBJSON typed arrays / high-precision numbers, CBOR tags / undefined / sets, MsgPack ext types."""
+    import decimal
+    out = []
+    try:
+        if base == "ubjson":
+            import numpy
+            out = [("typed-array-u8", numpy.array([1, 2], dtype="uint8")), ("typed-array-2d", numpy.array([[1, 2], [3, 4]], dtype="int16")),
+                   ("typed-array-f32", numpy.array([0.5], dtype="float32")), ("typed-array-char", numpy.array([b"a", b"b"], dtype="|S1")),
+                   ("high-precision", decimal.Decimal("5.25")), ("high-precision-big", decimal.Decimal(2 ** 70))]
+        elif base == "cbor":
+            import cbor2
+            import datetime
+            out = [("decimal-fraction", decimal.Decimal("5.25")), ("undefined", cbor2.undefined), ("unknown-tag", cbor2.CBORTag(4711, "x")),
+                   ("datetime", datetime.datetime(2020, 1, 1, tzinfo=datetime.timezone.utc)), ("set", {1, 2}), ("bignum", 2 ** 70),
+                   ("negative-bignum", -2 ** 70), ("simple-value", cbor2.CBORSimpleValue(99))]
+        elif base == "msgpack":
+            import msgpack
+            out = [("ext-type", msgpack.ExtType(5, b"x")), ("timestamp", msgpack.Timestamp(1577836800, 0)), ("uint64-max", 2 ** 64 - 1),
+                   ("int64-min", -2 ** 63)]
+        else:
+            out = [("big-int", 2 ** 70), ("float-exp", 1e308), ("binary-convention", b"\x00\x01")]
+    except Exception:
+        pass
     return out
 
 
@@ -251,26 +295,34 @@ class Monitor:
         if type(wire) is not list:
             return "envelope"
         has_dict = spec.dictpos is not None and len(wire) > spec.dictpos and type(wire[spec.dictpos]) is dict
-        # 0. places the oracle flags: replace by a valid value
-        for where, _, _ in G.offenders(spec, wire):
+        # 0. places the oracle flags: replace by a valid value - each one alone, then (several places responsible at
+        #    once, e.g. thorough tier's pairs) cumulatively in wire order: the place whose repair makes the exception
+        #    disappear while all earlier ones are already repaired reproduces the exception on its own
+        offs = G.offenders(spec, wire)
+        for cumulative in (False, True):
             w = list(wire)
-            if "." in where and has_dict:
-                key = where.split(".", 1)[1]
-                o = spec.opt_by_key.get(key)
-                if o is None:
-                    continue
-                w[spec.dictpos] = dict(wire[spec.dictpos])
-                w[spec.dictpos][key] = self.valid_opt_value(spec, o)
-            else:
-                idx = None
-                for i, p in enumerate(spec.layout):
-                    if p.name == where and p.kind != "dict":
-                        idx = i + 1
-                        w[idx] = NEUTRAL[p.kind]
-                if idx is None or idx >= len(wire):
-                    continue
-            if not self._raises(spec, w, etype):
-                return where
+            for where, _, _ in offs:
+                if not cumulative:
+                    w = list(wire)
+                if "." in where and has_dict:
+                    key = where.split(".", 1)[1]
+                    o = spec.opt_by_key.get(key)
+                    if o is None:
+                        continue
+                    w[spec.dictpos] = dict(w[spec.dictpos])
+                    w[spec.dictpos][key] = self.valid_opt_value(spec, o)
+                else:
+                    idx = None
+                    for i, p in enumerate(spec.layout):
+                        if p.name == where and p.kind != "dict":
+                            idx = i + 1
+                    if idx is None or idx >= len(wire):
+                        continue
+                    w[idx] = NEUTRAL[spec.layout[idx - 1].kind]
+                if not self._raises(spec, w, etype):
+                    return where
+            if len(offs) < 2:
+                break
         # 1. options (table order, then unknown keys): delete
         if has_dict:
             d = wire[spec.dictpos]
@@ -749,6 +801,33 @@ class Monitor:
                             R.count("lib_encode_failed")
                             continue
                         self.unser_case(sid, ser, batched, data, "structured@%s[%d]=%s" % (spec.name, idx, lab))
+            # D1c: values only this format's decoder produces (typed arrays, tags, ext types ...) as REAL OCTETS at every
+            #      position and under every known option key
+            for spec, sname, wire in bases:
+                if sname not in ("full", "payload"):
+                    continue
+                places = [("pos", idx) for idx in range(1, len(wire))]
+                if spec.dictpos is not None and spec.dictpos < len(wire):
+                    places += [("opt", o.key) for o in spec.opts]
+                for kind, where in places:
+                    for lab, v in decoder_values(base):
+                        n += 1
+                        if n % parts != part:
+                            continue
+                        w = list(wire)
+                        if kind == "pos":
+                            w[where] = v
+                        else:
+                            w[spec.dictpos] = dict(wire[spec.dictpos])
+                            w[spec.dictpos][where] = v
+                        try:
+                            data = enc(w)
+                        except Exception:
+                            R.count("lib_encode_failed")
+                            continue
+                        R.count("decoder_values_judged")
+                        R.seen("decoder_value_kinds", "%s|%s" % (base, lab))
+                        self.unser_case(sid, ser, batched, data, "decoder-value@%s[%s]=%s" % (spec.name, where, lab))
             # D3: arbitrary octets
             if (hash(sid) + 0) % 1 == 0:
                 for b in range(256):
@@ -839,6 +918,75 @@ class Monitor:
                         self.unser_case(sid, ser, batched, data, "batch-" + lab)
 
 
+    # -- workload E: FlatBuffers serializer (totality only: no independent decoder) -----------------------
+    def workload_flatbuffers(self, part, parts, tier, seed):
+        R = self.R
+        cls = getattr(self.S, "FlatBuffersSerializer", None)
+        if cls is None:
+            R.note("flatbuffers", "FlatBuffersSerializer not available")
+            return
+        rng = random.Random("%s/c08/fbs/%d" % (seed, part))
+        ser = cls()
+        sid = ser.SERIALIZER_ID
+        n = 0
+        for spec in G.SPECS:
+            for sname, wire in skeletons(spec):
+                if sname not in ("minimal", "full", "payload", "full+args+kwargs"):
+                    continue
+                n += 1
+                if n % parts != part:
+                    continue
+                try:
+                    data, _ = ser.serialize(self.klass[spec.name].parse(G.clone(wire)))
+                    data = bytes(data)
+                except Exception:
+                    R.count("flatbuffers_encode_unsupported")      # not every class has a FlatBuffers schema
+                    continue
+                R.seen("flatbuffers_classes", spec.name)
+                muts = [data]
+                for i in range(len(data)):
+                    picks = range(256) if (tier == "thorough" and len(data) <= 160) else {data[i] ^ 0x01, data[i] ^ 0x80, 0x00, 0xff, rng.randrange(256)}
+                    for b in picks:
+                        if b != data[i]:
+                            muts.append(data[:i] + bytes([b]) + data[i + 1:])
+                    muts.append(data[:i])
+                for tail in (b"\x00", b"\xff" * 4, data):
+                    muts.append(data + tail)
+                for mdata in muts:
+                    self.fbs_case(ser, sid, mdata, "mutation@%s/%s" % (spec.name, sname))
+        for k in range(600 if tier == "quick" else 20000):
+            n += 1
+            if n % parts != part:
+                rng.random()
+                continue
+            ln = rng.choice([0, 1, 2, 3, 4, 7, 8, 12, 16, 24, 32, 64, 200])
+            data = bytes(rng.getrandbits(8) for _ in range(ln))
+            if rng.random() < 0.5 and ln >= 8:
+                data = rng.choice([4, 8, 12, 16]).to_bytes(4, "little") + data[4:]     # plausible root offset
+            self.fbs_case(ser, sid, data, "noise")
+
+    def fbs_case(self, ser, sid, data, label):
+        R = self.R
+        R.count("evaluations")
+        R.count("flatbuffers_calls")
+        R.seen("serializer_variants", sid)
+        replay = {"kind": "unserialize", "serializer": sid, "bytes": data.hex(), "label": label, "is_binary": True}
+        try:
+            msgs = ser.unserialize(data, True)
+        except self.allowed:
+            R.count("flatbuffers_rejected")
+        except Exception as e:
+            R.violation("C08/unserialize/flatbuffers/%s" % type(e).__name__,
+                        "flatbuffers.unserialize() raised %s(%s) for %d octets (%s)" % (type(e).__name__, str(e)[:80], len(data), label),
+                        {"bytes": data[:300].hex(), "label": label}, replay)
+        else:
+            R.count("flatbuffers_accepted")
+            if not all(isinstance(m, self.M.Message) for m in msgs):
+                R.violation("C08/unserialize/flatbuffers/returned-non-message", "unserialize() returned %r" % ([type(m) for m in msgs],),
+                            {"bytes": data[:300].hex()}, replay)
+        R.seen("nontrivial", "%s|%s" % (sid, h(data)))
+
+
 # ------------------------------------------------------------------------------------------------
 def shards(tier, seed):
     n = NSHARDS[tier]
@@ -875,6 +1023,7 @@ def run_shard(params, R):
         mon.workload_validators()
     mon.workload_uri(part, parts, tier)
     mon.workload_serializers(part, parts, tier, seed)
+    mon.workload_flatbuffers(part, parts, tier, seed)
     # a skeleton the code rejects means table and code disagree about what is valid: inconclusive, not a verdict
     if R.counters.get("skeletons_rejected", 0) == 0:
         R.count("harness_in_sync")
@@ -889,6 +1038,8 @@ def replay(case, R):
     kind = case.get("kind")
     if kind == "parse":
         mon.parse_case(G.BY_NAME[case["class"]], G.jdec(case["wire"]), case.get("label", "replay"), case.get("skeleton", "replay"))
+    elif kind == "unserialize" and case["serializer"] == "flatbuffers":
+        mon.fbs_case(mon.S.FlatBuffersSerializer(), "flatbuffers", bytes.fromhex(case["bytes"]), case.get("label", "replay"))
     elif kind == "unserialize":
         for sid, ser, batched in mon.make_serializers():
             if sid == case["serializer"]:
@@ -913,8 +1064,10 @@ MANIFEST_ENTRY = {
              "with wrong element counts and unknown keys; check_or_raise_uri is compared with a component-wise URI oracle on every "
              "string up to length 5-6 over a 10-symbol alphabet in all six modes; every serializer (JSON, MsgPack, CBOR, UBJSON, "
              "batched/unbatched) receives unknown type codes, non-list top levels, single-byte mutations/truncations/extensions of "
-             "valid encodings of every class, short exhaustive and random octet strings, nesting to depth 10^5 and corrupted batch "
-             "framing. Monitored: only ProtocolError/InvalidUriError may escape; nothing of the must-reject class may yield a "
+             "valid encodings of every class, short exhaustive and random octet strings, nesting to depth 10^5, corrupted batch "
+             "framing, and the values only one decoder produces (UBJSON typed arrays = numpy arrays, CBOR tags/undefined/sets, "
+             "MsgPack ext types) as real octets at every position and option; the FlatBuffers serializer receives mutated own "
+             "encodings and noise (exception type only). Monitored: only ProtocolError/InvalidUriError may escape; nothing of the must-reject class may yield a "
              "message; an accepted message must re-marshal to an equivalent list. Held = no such event on the executions listed in "
              "the evidence; not a proof."),
     "note": ("trusts vf/wamp_grammar.py (must-reject oracle written from the WAMP spec, cross-checked against the code at start-up; "
